@@ -92,12 +92,27 @@ def r1(ctx):
               role="fallback:import-guard", expected="except ImportError", found=found)
     # module-level selection
     sel = {}
+
+    def _avail(test):
+        """+1: test is NUMBA_AVAILABLE, -1: its negation, 0: something else"""
+        if isinstance(test, ast.Name) and test.id == "NUMBA_AVAILABLE":
+            return 1
+        if isinstance(test, ast.UnaryOp) and isinstance(test.op, ast.Not):
+            return -_avail(test.operand)
+        return 0
     for n in ast.walk(g.tree):
-        if isinstance(n, ast.If) and isinstance(n.test, ast.Name) and n.test.id == "NUMBA_AVAILABLE":
-            for br, stmts in (("numba", n.body), ("fallback", n.orelse)):
+        if isinstance(n, ast.If) and _avail(n.test):
+            pos, neg = (n.body, n.orelse) if _avail(n.test) > 0 else (n.orelse, n.body)
+            for br, stmts in (("numba", pos), ("fallback", neg)):
                 for st in stmts:
                     if isinstance(st, ast.Assign) and isinstance(st.targets[0], ast.Name):
                         sel[(br, st.targets[0].id)] = unparse(st.value)
+    for st in g.tree.body:
+        if isinstance(st, ast.Assign) and len(st.targets) == 1 and isinstance(st.targets[0], ast.Name) and isinstance(st.value, ast.IfExp) \
+                and _avail(st.value.test):
+            pos, neg = (st.value.body, st.value.orelse) if _avail(st.value.test) > 0 else (st.value.orelse, st.value.body)
+            sel[("numba", st.targets[0].id)] = unparse(pos)
+            sel[("fallback", st.targets[0].id)] = unparse(neg)
     want = {("numba", "njit"): "numba.njit", ("numba", "prange"): "numba.prange", ("fallback", "njit"): "fake_njit", ("fallback", "prange"): "fake_prange"}
     ctx.check(all(sel.get(k) == v for k, v in want.items()), g.name, "module-level njit/prange select Numba's or the fall-backs",
               role="fallback:selection", expected=str(want), found=str(sel))
